@@ -187,6 +187,18 @@ fn gen_pattern(rng: &mut Rng, jar: &mut Vec<AClass>, ci: usize, h: &Hier, kind: 
 		let ti = jar.iter().position(|c| c.name == target_cls).unwrap();
 		let mut m = em.clone();
 		if rng.chance(1, 2) { m.flags |= ACC_BRIDGE; }
+		if rng.chance(1, 2) {
+			// a covariant sibling: one object-typed position (parameter or return) generalised to java/lang/Object
+			if let Some((mut ps, mut ret)) = split_desc(&m.desc) {
+				let objp: Vec<usize> = (0..=ps.len()).filter(|&i| { let t = if i < ps.len() { &ps[i] } else { &ret }; t.first() == Some(&('L' as u32)) && *t != obj(&object()) }).collect();
+				if !objp.is_empty() {
+					let i = *rng.pick(&objp[..]);
+					if i < ps.len() { ps[i] = obj(&object()); } else { ret = obj(&object()); }
+					m.desc = join_desc(&ps, &ret);
+					counts("pattern:shared-delegate:covariant-sibling");
+				}
+			}
+		}
 		if let Some(v) = m.calls.as_mut() { v[0].kind = *rng.pick(&[CallKind::Virtual, CallKind::Special][..]); if v[0].kind == CallKind::Virtual { v[0].iface_ref = false; } }
 		if !add_method(&mut jar[ti], m.clone(), allow_dup) { m.name = { let mut n = cps_str("syn$"); n.extend(&em.name); n }; add_method(&mut jar[ti], m, allow_dup); }
 		return;
@@ -401,6 +413,16 @@ pub fn gen_maps(rng: &mut Rng, g: &JarGen, cfg: &MapCfg) -> (MMappings, MMapping
 				if let Some(sc) = all.iter().find(|c| &c.name == *s) { for s2 in sc.super_class.iter().chain(sc.interfaces.iter()) { if rng.chance(1, 2) { targets.push(cm(s2)); } } }
 			}
 			if rng.chance(1, 2) { if let Some(own) = maps.classes.iter_mut().find(|c| c.names[0].as_ref() == Some(&k)) { own.methods.retain(|x| !(x.names[0].as_ref() == Some(&n) && x.desc == d)); } }
+			else if rng.chance(1, 2) {
+				// the own entry stays but has NO named name (it only carries a parameter name): it names nothing, the lookup goes on
+				match maps.classes.iter_mut().find(|c| c.names[0].as_ref() == Some(&k)) {
+					Some(own) => match own.methods.iter_mut().find(|x| x.names[0].as_ref() == Some(&n) && x.desc == d) {
+						Some(x) => x.names[1] = None,
+						None => own.methods.push(MMeth { desc: d.clone(), names: vec![Some(n.clone()), None], doc: None, params: vec![MParam { index: 1, names: vec![None, Some(cps_str("arg"))], doc: None }] }),
+					},
+					None => {}
+				}
+			}
 		}
 		for sup in targets {
 			let idx = match maps.classes.iter().position(|c| c.names[0].as_ref() == Some(&sup)) {
